@@ -416,7 +416,7 @@ PROPS = {
     'C16': {'comp': 'reconnect', 'profile': 'full'},
     'C06': {'comp': 'timelimiter', 'profile': 'full'},
     'C12': {'comp': 'hedge', 'profile': 'full'},
-    'C10': {'comp': 'cache', 'profile': 'full'},
+    'C10': {'comp': 'cache', 'profile': 'FALSE', 'drift_profile': 'TRUE'},
     'C11': {'comp': 'coalesce', 'profile': 'full'},
     'C18': {'comp': 'health', 'profile': 'full'},
     'C19': {'comp': 'chaos', 'profile': 'full'},
